@@ -9,16 +9,15 @@ supermajority threshold `thr` of the voter set (f := total − thr is the tolera
 * g(S) = the block with a supermajority of highest block number (nil if none);
 * it is *impossible* for S to have a supermajority for B if the weight of the voters that vote for a block ≱ B
   or equivocate exceeds total + f − thr (= 2f; for n = 3f+1 unit voters this is the paper's "at least
-  (n+f+1)/2 voters"); otherwise it is *possible* (`possiblePaper`). The paper gives this counting form its
-  meaning only for tolerant S ("possible iff some tolerant T ⊇ S has a supermajority for B"). `possible` is
-  that meaning in closed form for every S: a supermajority thr = total − f for B needs all but f of the
-  weight; of the non-equivocating voters against B at most f ∸ e can still change sides by equivocating
-  (e = equivocating weight already seen, no further equivocation once e ≥ f), so B is possible iff
-  against(B) ≤ f + (f ∸ e). For tolerant S both forms coincide (`possible_eq_paper` in Props);
+  (n+f+1)/2 voters"); otherwise it is *possible*. (For tolerant S this says: some tolerant T ⊇ S has a
+  supermajority for B.)
 * finalized = the highest block with a supermajority of both prevotes and precommits;
 * E = the last block on the chain of g(prevotes) for which a precommit supermajority is possible;
 * completable = E is defined and (E ≠ g(V) or no child of g(V) – existing or yet unseen – can possibly get a
   precommit supermajority).
+
+The paper states these definitions for *tolerant* vote sets (equivocating weight ≤ f); with more equivocation
+g(S) is not unique. The property is claimed on tolerant sets only.
 
 Everything here is a function of the *membership* of votes in the list, never of their order or multiplicity.
 -/
@@ -62,10 +61,6 @@ def againstWeight (t : Tree) (ws : List Nat) (ops : List Op) (ph : Bool) (B : Na
 
 /-- it is possible for the votes of the phase to get a supermajority for B -/
 def possible (t : Tree) (ws : List Nat) (ops : List Op) (ph : Bool) (B : Nat) : Bool :=
-  decide (againstWeight t ws ops ph B ≤ faulty ws + (faulty ws - equivWeight ws ops ph))
-
-/-- the paper's counting form: fewer than total + f − thr + 1 weight votes ≱ B or equivocates -/
-def possiblePaper (t : Tree) (ws : List Nat) (ops : List Op) (ph : Bool) (B : Nat) : Bool :=
   decide (againstWeight t ws ops ph B + equivWeight ws ops ph ≤ 2 * faulty ws)
 
 /-- block number relative to the base -/
